@@ -153,6 +153,14 @@ def gen_cases(ctx):
             if kind == "splice-seed" and k == 0:
                 first_bad = 0
             out.append((kind, G.partition(rng, G.flat(cs), marks=G.marks_of(cs)), declared, seed, terr, (datas, first_bad, must_fail)))
+        # the same data under chunk headers that carry no signature at all (the plain chunked-transfer form): one chunk, every chunk from
+        # some point on, the whole body - nothing of an unsigned chunk is delivered and the upload does not end well
+        plain = lambda c_: (b"%x\r\n" % len(c_[1]), c_[1], c_[2])
+        for k in sorted({0, len(chunks) // 2, len(chunks) - 1}):
+            out.append(("unsigned-chunk", G.partition(rng, G.flat(chunks[:k] + [plain(chunks[k])] + chunks[k + 1:])), total, G.SEED, False, (datas, k, True)))
+            out.append(("unsigned-from", G.partition(rng, G.flat(chunks[:k] + [plain(c_) for c_ in chunks[k:]])), total, G.SEED, False, (datas, k, True)))
+            out.append(("unsigned-chunk-semicolon", G.partition(rng, G.flat(chunks[:k] + [(b"%x;\r\n" % len(chunks[k][1]), chunks[k][1], chunks[k][2])] + chunks[k + 1:])),
+                        total, G.SEED, False, (datas, k, True)))
     return out
 
 
